@@ -32,6 +32,12 @@ Proof step (Props/C14.v) + three ties to the tree under test, all re-done on eve
  (B)      the LINE of a hand-over is checked as well as its column: bodies that are raw text by construction (PreFunction, class content;
           recorded by c14_run.py) exactly; Tokenizer.parse-level hand-overs also when the text sits in the same column of another line;
  (A)      SLASH_VALID / SLASH_PROBES: texts on which the `is_slash` fix 9285cea (ported into Model/Tok.v) changes the tokens.
+ strengthening round 3:
+ (E)      every call of exception.error_msg in every compile (recorded by c14_run.py): the (line, col) in the header `In file:L:C` and in the
+          sentence `at line L col C.` == Model.TokCite.cite col_length <recorded token>, evaluated in Coq (theorem C14_error_start);
+ (E3)     a diagnostic token whose text occurs exactly once in a program without text substitution is cited at that occurrence;
+ (C3)     bracket plants: the offending token is a BRACKET (round / square / curly / arrow-function body / backtick string) that spans several
+          lines, in 7 inner layouts, at nesting depths 0-3, in the outer layouts of round 2; expected = the bracket's first character.
 """
 from __future__ import annotations
 
@@ -818,6 +824,8 @@ def main(tier: str) -> int:
         "Model/Tok.v: hand-written character-exact port of Tokenizer.parse (tokenizer.py:285-735; header macros outside); "
         "Model/TokPos.v: pos_of, the three hand-over offsets (body/arrow/args), reach; tied to the tree by (A) token/diagnostic "
         "equality on every recorded Tokenizer.parse call, (B) the real hand-overs checked against file_string, (C) plants",
+        "Model/TokCite.v: the position error_msg writes into header and sentence for a given token (tied by (E) on every recorded call); "
+        "that the token given is the offending one is checked by construction on planted brackets (C3) and on unique texts (E3) only",
         "Model/TokDerived.v: the sign token parse_func_args splits off `=-`/`=+` (tied by (A2)); the other derived tokens "
         "(merge_tokens, split_keyword_token, parse_list/js_obj/component, merge_vanilla_macro) are not modelled: checked on the real side only (B2)",
         "harness: c14.py, c14_run.py (wraps Tokenizer.parse and the other tokenizer entry points from the runner process), c14_lib.py, "
